@@ -5,7 +5,12 @@ All strings are opaque tokens (hex text produced by the harness); the model only
 
   request `ent <item>… ; <wrapper> <param>… ; …`   (wrappers innermost first)
   request `val <val> ; <vwrapper> <param>… ; …`
+  request `seq <o|v|i,…|-> ; <adapter> <param>… ; … ;; [B] <item>… ;; [B] <item>… …`
+          (ONE long-lived stack of stream adapters — outermost first, i.e. innermost wrapper first — receives
+          the entries in order; the script is what the recording stream below answers: Ok / Validation / Io;
+          `B` = the entry is a `BoxEntry`)
   reply   `<call>… | <k~v>…`  (`_` for an empty list)   resp.  `<val>`
+          resp. per entry `<call>… | <k~v>… # <o|v|i>` joined by ` ;; `
 
   item    `T<int>` | `C<tok>` | `V<name>=<val>[@<vwrapper>[+<param>…]]…` | `G<k>~<v>`
   val     `N` | `S<tok>` | `E<tok>` | `M<unit>:<-|h|x>:<k~v,…|.>:<obs;…|.>`
@@ -189,6 +194,47 @@ def segments (ts : List String) : List (List String) :=
     if t == ";" then ([], acc.2 ++ [acc.1]) else (acc.1 ++ [t], acc.2)) ([], [])
   done ++ [cur]
 
+/-- split a token list at the given separator token -/
+def splitAt (sep : String) (ts : List String) : List (List String) :=
+  let (cur, done) := ts.foldl (fun (acc : List String × List (List String)) t =>
+    if t == sep then ([], acc.2 ++ [acc.1]) else (acc.1 ++ [t], acc.2)) ([], [])
+  done ++ [cur]
+
+def parseAdapter (ts : List String) : Option Adapter :=
+  match parseWrapper ts with
+  | some (.streamMergeGlobals g) => some (.mergeGlobals g)
+  | some (.streamGlobalDims d deny) => some (.globalDims d deny)
+  | some (.streamForceFlag f) => some (.forceFlag f)
+  | _ => none
+
+def parseScript (s : String) : Option (List IoRes) :=
+  if s == "-" then some []
+  else (s.splitOn ",").mapM fun t =>
+    if t == "o" then some IoRes.ok else if t == "v" then some .validation else if t == "i" then some .io else none
+
+def showRes : IoRes → String
+  | .ok => "o" | .validation => "v" | .io => "i"
+
+def parseSeqEntry (ts : List String) : Option Ent :=
+  match ts with
+  | "B" :: rest => (parseEnt rest).map Ent.boxed
+  | _ => parseEnt ts
+
+def handleSeq (rest : List String) : String :=
+  match splitAt ";;" rest with
+  | head :: entries =>
+    match splitAt ";" head with
+    | [script] :: ads =>
+      match parseScript script, ads.mapM parseAdapter, entries.mapM parseSeqEntry with
+      | some script, some ads, some es =>
+        let (_, r, res) := runSeq ads ⟨[], script⟩ es
+        if r.seen.length != res.length then "model-error"
+        else " ;; ".intercalate ((r.seen.zip res).map fun ((l, g), x) =>
+          s!"{showList (l.map showCall)} | {showList (g.map showPair)} # {showRes x}")
+      | _, _, _ => "bad-op"
+    | _ => "bad-op"
+  | [] => "bad-op"
+
 def handle (line : String) : String :=
   match (line.trimAscii.toString.splitOn " ").filter (· ≠ "") with
   | "ent" :: rest =>
@@ -200,6 +246,7 @@ def handle (line : String) : String :=
         s!"{showList (e'.log.map showCall)} | {showList (e'.sampleGroup.map showPair)}"
       | _, _ => "bad-op"
     | [] => "bad-op"
+  | "seq" :: rest => handleSeq rest
   | "val" :: rest =>
     match segments rest with
     | [v] :: ws =>
